@@ -186,11 +186,15 @@ PollInvoke(i) ==
   /\ pstage' = [pstage EXCEPT ![i] = "delete"]
   /\ UNCHANGED <<now, tx, execAt, rowCap, imj, lcap, alive, ans, heap, mpc, pollq, pcap>>
   /\ ev' = [a |-> "PollInvoke", i |-> i, j |-> Head(pollq[i])]
+\* (the row may be gone already - the job was also in this or another instance's memory, ran there past the capture timeout and
+\*  was deleted: delete_scheduled_job raises DBEntityNotFoundError, which ends the whole pass; the rest of the batch stays captured
+\*  and is picked up again after the capture timeout)
 PollDelete(i) ==
   /\ Up(i) /\ pstage[i] = "delete"
   /\ rowCap' = [rowCap EXCEPT ![Head(pollq[i])] = -2]
-  /\ pollq' = [pollq EXCEPT ![i] = Tail(@)]
-  /\ pstage' = [pstage EXCEPT ![i] = IF Len(pollq[i]) = 1 THEN "idle" ELSE "invoke"]
+  /\ LET gone == rowCap[Head(pollq[i])] = -2 IN
+       /\ pollq' = [pollq EXCEPT ![i] = IF gone THEN <<>> ELSE Tail(@)]
+       /\ pstage' = [pstage EXCEPT ![i] = IF gone \/ Len(pollq[i]) = 1 THEN "idle" ELSE "invoke"]
   /\ UNCHANGED <<now, tx, execAt, imj, lcap, alive, heap, mpc, pcap>> /\ UnchangedInv
   /\ SetAns
   /\ ev' = [a |-> "PollDelete", i |-> i, j |-> Head(pollq[i])]
@@ -228,9 +232,12 @@ FairSpec == Spec /\ WF_vars(Tick) /\ \A i \in Immortal : WF_vars(Progress(i))
                  /\ \A j \in Jobs : WF_vars(Commit(j) \/ Rollback(j))
 
 (* ---- liveness: a committed job is eventually invoked, also after a crash of its capturer ---- *)
-AtLeastOnce == \A j \in Jobs : (tx[j] = "committed") ~> (invCount[j] >= 1)
+\* (the model's clock stops at MaxTime: a job that is captured at that horizon and whose capture timeout has not run out - the
+\*  rest of a store pass that ended on DBEntityNotFoundError - would be picked up again later; the horizon excuses exactly that)
+CutByHorizon(j) == now = MaxTime /\ rowCap[j] >= 0 /\ rowCap[j] > now - CapTimeout
+AtLeastOnce == \A j \in Jobs : (tx[j] = "committed") ~> (invCount[j] >= 1 \/ CutByHorizon(j))
 \* everything finishes: no job row is left behind
-Drains == <>[](\A j \in Jobs : tx[j] = "committed" => rowCap[j] = -2)
+Drains == <>[](\A j \in Jobs : tx[j] = "committed" => (rowCap[j] = -2 \/ CutByHorizon(j)))
 
 TypeOK == /\ now \in 0..MaxTime
           /\ \A j \in Jobs : rowCap[j] \in -2..MaxTime
